@@ -1199,3 +1199,95 @@ def none_case_values(fi: FuncInfo, params: list[str], target: str, stop: ast.AST
             return None
         out[tuple(combo)] = env[target]
     return out
+
+
+# --------------------------------------------------------------------------- one item through a mapping builder
+
+class Undecided(Exception):
+    """A test, statement or atom the per-item interpreter has no meaning for."""
+
+
+def _positive_compare(test: ast.Compare) -> tuple[ast.AST, bool]:
+    """`a not in b`, `a is not b`, `a != b` in their positive spelling, with the polarity"""
+    import copy
+    flip = {ast.NotIn: ast.In, ast.IsNot: ast.Is, ast.NotEq: ast.Eq}
+    if len(test.ops) == 1 and type(test.ops[0]) in flip:
+        t = copy.deepcopy(test)
+        t.ops = [flip[type(test.ops[0])]()]
+        return t, False
+    return test, True
+
+
+def atom_truth(test: ast.AST, atoms: dict[str, Optional[bool]]) -> bool:
+    """Truth of a test under an assignment of its atoms (by normalised positive text), evaluated with Python's short circuit.
+    An atom that is absent, or whose value is None (evaluating it would fail), raises Undecided naming it."""
+    if isinstance(test, ast.BoolOp):
+        is_and = isinstance(test.op, ast.And)
+        for v in test.values:
+            t = atom_truth(v, atoms)
+            if is_and and not t:
+                return False
+            if not is_and and t:
+                return True
+        return is_and
+    if isinstance(test, ast.UnaryOp) and isinstance(test.op, ast.Not):
+        return not atom_truth(test.operand, atoms)
+    if isinstance(test, ast.Constant) and isinstance(test.value, bool):
+        return test.value
+    pol = True
+    if isinstance(test, ast.Compare):
+        test, pol = _positive_compare(test)
+    text = norm_text(test)
+    if atoms.get(text) is None:
+        raise Undecided(text)
+    return atoms[text] if pol else not atoms[text]
+
+
+def item_outcome(builder, atoms: dict[str, Optional[bool]], env: Optional[dict] = None) -> list[tuple[str, str, ast.AST]]:
+    """Run ONE item through a mapping builder under an assignment of atoms and return the subscript stores that survive,
+    as (mapping text, key text, value) in order with later stores to the same slot replacing earlier ones.
+    `builder` is a DictComp (one clause: the store is its key/value unless a filter rejects the item; mapping text '<comp>')
+    or the body of a `for` loop (assignments to names are substituted forward; `if` follows the atoms; `continue` ends the item).
+    Conditional expressions in values are resolved with the atoms.  Anything else raises Undecided."""
+    import copy
+    env = dict(env or {})
+
+    def subst(e):
+        return _SubstNames(env).visit(copy.deepcopy(e)) if env else e
+
+    def value_of(e):
+        e = subst(e)
+        while isinstance(e, ast.IfExp):
+            e = e.body if atom_truth(e.test, atoms) else e.orelse
+        return e
+    stores: dict[tuple[str, str], ast.AST] = {}
+    if isinstance(builder, ast.DictComp):
+        if len(builder.generators) != 1:
+            raise Undecided('more than one clause')
+        for f in builder.generators[0].ifs:
+            if not atom_truth(f, atoms):
+                return []
+        return [('<comp>', norm_text(builder.key), value_of(builder.value))]
+
+    def run(stmts) -> str:
+        for st in stmts:
+            if isinstance(st, ast.AnnAssign) and st.value is not None:
+                st = ast.Assign(targets=[st.target], value=st.value)
+            if isinstance(st, ast.Assign) and len(st.targets) == 1 and isinstance(st.targets[0], ast.Name):
+                env[st.targets[0].id] = value_of(st.value)
+            elif isinstance(st, ast.Assign) and len(st.targets) == 1 and isinstance(st.targets[0], ast.Subscript):
+                t = st.targets[0]
+                stores[(norm_text(subst(t.value)), norm_text(subst(t.slice)))] = value_of(st.value)
+            elif isinstance(st, ast.If):
+                how = run(st.body if atom_truth(subst(st.test), atoms) else st.orelse)
+                if how != 'next':
+                    return how
+            elif isinstance(st, ast.Continue):
+                return 'continue'
+            elif isinstance(st, ast.Pass) or isinstance(st, ast.AnnAssign):
+                continue
+            else:
+                raise Undecided(norm_text(st)[:60])
+        return 'next'
+    run(list(builder))
+    return [(m, k, v) for (m, k), v in stores.items()]
